@@ -272,6 +272,7 @@ package environment
 //@   [C06] on call builtin.append when argname0 == "cleanupTaskHooksToRelease" : assert arg1 == ft && nApp + 1 == nFT ; nApp = nApp + 1
 //@   [C06] on call .TriggerHooks : assert nApp == nFT
 //@   [C06] on call task.NewEnvironmentMessage when sends == 1 && recvs == 1 : assert arg0 == taskop.ReleaseTasks && arg1 == environmentId && arg2 == cleanupTaskHooksToRelease && nApp == nFT
+//@   [C06] loop 1 invariant nApp == 0
 //@   [C06] loop 2 invariant nApp == 0
 //@   [C06] loop 3 invariant nApp == 0
 //@   [C06] loop 4 invariant nApp == 0
